@@ -251,7 +251,7 @@ func confine(data []byte) []byte {
 	for i, l := range lines {
 		if tr := strings.TrimSpace(l); strings.HasPrefix(tr, "@") {
 			h := fnv.New32a()
-			h.Write([]byte(strings.ReplaceAll(tr, sandbox, "<sandbox>"))) // the sandbox path differs from process to process
+			h.Write([]byte(strings.ReplaceAll(tr, sandbox, "<sandbox>")))           // the sandbox path differs from process to process
 			lines[i] = "@" + filepath.Join(sandbox, bodyFileName(int(h.Sum32()%8))) // body6.bin, body7.bin do not exist
 		}
 	}
